@@ -494,6 +494,8 @@ impl AddressLookupServices {
                 service.publish(data)
             }
         }
+        #[cfg(feature = "verif-hooks")]
+        crate::verif_hooks::pause("lookup.add.after_read_last");
         self.services.write().expect("poisoned").push(service);
     }
 
@@ -519,6 +521,8 @@ impl AddressLookupServices {
             Some(filter) => data.apply_filter(filter),
             None => Cow::Borrowed(data),
         };
+        #[cfg(feature = "verif-hooks")]
+        crate::verif_hooks::pause("lookup.publish.before_services");
         let services = self.services.read().expect("poisoned");
         for service in &*services {
             service.publish(&data);
